@@ -376,6 +376,11 @@ func genC09(g *Gen, tier string, emit func(op string, args ...string)) {
 	if tier == "thorough" {
 		n = 40000
 	}
+	// every attribute type 0..255 in second and in last place: no type is special to the list or to its wire form
+	for t := 0; t < 256; t++ {
+		o := 1 + t%2
+		emit("ops", showAVPs([]avp{{o, []byte{0xaa}}, {t, []byte{0xbb, byte(t)}}, {o + 2, nil}}), "add:"+itoa(t)+":cc,lookup:"+itoa(t)+",add:"+itoa(o)+":dd")
+	}
 	for i := 0; i < n; i++ {
 		var init []avp
 		for j := g.Intn(12); j > 0; j-- {
